@@ -110,6 +110,8 @@ type facts struct {
 	watcherOnError     bool // the loop reacts to sm.ERROR
 	watcherLeavesDone  bool // …and leaves on sm.DONE
 	forcedError        bool // setState(...) when GO_ERROR is refused and the state is not ERROR
+	notifyChanCap      int  // capacity of the channel the watcher subscribes with (0: unbuffered; -1: not found / not a literal)
+	watcherRereads     bool // after the receive and before acting: root role in ERROR overrides the received value
 }
 
 func extract(repo string) (*facts, error) {
@@ -332,6 +334,95 @@ func extract(repo string) (*facts, error) {
 			ft.forcedError = len(callsNamed(c.Args[1], "setState")) > 0 && len(callsNamed(c.Args[1], "NewGoErrorTransition")) > 0
 		}
 	}
+	// the channel handed to SubscribeToStateChange: `notify := make(chan sm.State[, <n>])`
+	ft.notifyChanCap = -1
+	subscribed := ""
+	for _, c := range callsNamed(sw, "SubscribeToStateChange") {
+		if len(c.Args) == 2 {
+			subscribed = selName(c.Args[1])
+		}
+	}
+	wfIsWorkflow := false // `wf := env.Workflow()`
+	ast.Inspect(sw, func(x ast.Node) bool {
+		as, ok := x.(*ast.AssignStmt)
+		if !ok || len(as.Lhs) != 1 || len(as.Rhs) != 1 {
+			return true
+		}
+		if selName(as.Lhs[0]) == "wf" && len(callsNamed(as.Rhs[0], "Workflow")) == 1 {
+			wfIsWorkflow = true
+		}
+		if subscribed == "" || selName(as.Lhs[0]) != subscribed {
+			return true
+		}
+		mk, ok := as.Rhs[0].(*ast.CallExpr)
+		if !ok || selName(mk.Fun) != "make" || len(mk.Args) == 0 {
+			return true
+		}
+		if _, ok := mk.Args[0].(*ast.ChanType); !ok {
+			return true
+		}
+		switch len(mk.Args) {
+		case 1:
+			ft.notifyChanCap = 0
+		case 2:
+			if b, ok := mk.Args[1].(*ast.BasicLit); ok && b.Kind == token.INT {
+				if n, err := strconv.Atoi(b.Value); err == nil {
+					ft.notifyChanCap = n
+				}
+			}
+		}
+		return true
+	})
+	// the receive clause `case wfState = <-notify:`: an `if … wf.GetState() == sm.ERROR … { wfState = sm.ERROR }`
+	// (optionally `wfState != sm.ERROR && …`) that comes BEFORE the `if wfState == sm.ERROR` the watcher acts on
+	isErrCmp := func(e ast.Expr, op token.Token, lhs func(ast.Expr) bool) bool {
+		be, ok := e.(*ast.BinaryExpr)
+		return ok && be.Op == op && lhs(be.X) && selName(be.Y) == "ERROR"
+	}
+	isWfState := func(e ast.Expr) bool { id, ok := e.(*ast.Ident); return ok && id.Name == "wfState" }
+	isRootState := func(e ast.Expr) bool {
+		c, ok := e.(*ast.CallExpr)
+		if !ok || len(c.Args) != 0 {
+			return false
+		}
+		se, ok := c.Fun.(*ast.SelectorExpr)
+		return ok && se.Sel.Name == "GetState" && selName(se.X) == "wf" && wfIsWorkflow
+	}
+	ast.Inspect(sw, func(x ast.Node) bool {
+		cc, ok := x.(*ast.CommClause)
+		if !ok || cc.Comm == nil {
+			return true
+		}
+		as, ok := cc.Comm.(*ast.AssignStmt)
+		if !ok || len(as.Lhs) != 1 || len(as.Rhs) != 1 || !isWfState(as.Lhs[0]) {
+			return true
+		}
+		if u, ok := as.Rhs[0].(*ast.UnaryExpr); !ok || u.Op != token.ARROW || selName(u.X) != subscribed {
+			return true
+		}
+		for _, st := range cc.Body {
+			ifs, ok := st.(*ast.IfStmt)
+			if !ok {
+				continue
+			}
+			if isErrCmp(ifs.Cond, token.EQL, isWfState) {
+				break // the reaction: a re-read after it would be too late
+			}
+			cond := ifs.Cond
+			if be, ok := cond.(*ast.BinaryExpr); ok && be.Op == token.LAND && isErrCmp(be.X, token.NEQ, isWfState) {
+				cond = be.Y
+			}
+			if !isErrCmp(cond, token.EQL, isRootState) || ifs.Else != nil {
+				continue
+			}
+			for _, b := range ifs.Body.List {
+				if a, ok := b.(*ast.AssignStmt); ok && a.Tok == token.ASSIGN && len(a.Lhs) == 1 && len(a.Rhs) == 1 && isWfState(a.Lhs[0]) && selName(a.Rhs[0]) == "ERROR" {
+					ft.watcherRereads = true
+				}
+			}
+		}
+		return true
+	})
 	ast.Inspect(sw, func(x ast.Node) bool {
 		ifs, ok := x.(*ast.IfStmt)
 		if !ok {
@@ -405,6 +496,8 @@ func genFacts(repo string) (string, error) {
 	w("go/ast, subscribeToWfState: under `if !handlingError` the loop is left with a labelled break", "watcherOneShot", "Bool", bs(ft.watcherOneShot))
 	w("go/ast, subscribeToWfState: `if wfState == sm.DONE { break LOOP }`", "watcherLeavesOnDone", "Bool", bs(ft.watcherLeavesDone))
 	w("go/ast, the timer function calls NewGoErrorTransition and env.setState (forced ERROR)", "forcedError", "Bool", bs(ft.forcedError))
+	w("go/ast, subscribeToWfState: capacity of the channel passed to SubscribeToStateChange (`make(chan sm.State)` = 0; 1000000 = not found)", "notifyChanCap", "Nat", fmt.Sprint(map[bool]int{true: ft.notifyChanCap, false: 1000000}[ft.notifyChanCap >= 0]))
+	w("go/ast, subscribeToWfState: in `case wfState = <-notify:`, before `if wfState == sm.ERROR`, an `if [wfState != sm.ERROR &&] wf.GetState() == sm.ERROR { wfState = sm.ERROR }` with wf := env.Workflow()", "watcherRereadsRoot", "Bool", bs(ft.watcherRereads))
 	b.WriteString("end Gen.C03\n")
 	return b.String(), nil
 }
